@@ -326,6 +326,9 @@ func (w *c09World) onReset(st *c09Stream) {
 		s.Count("probe_unknown_type_reset")
 	default:
 		s.Count("probe_reset_on_error")
+		if len(r.msg.GetKey()) >= c09BigKeyMin {
+			s.Count("probe_big_key_refused")
+		}
 	}
 }
 
@@ -405,6 +408,10 @@ func (w *c09World) checkResponse(st *c09Stream, r *c09Req, resp *pb.Message, bod
 	if bodyLen == network.MessageSizeMax && typ == pb.Message_PING {
 		s.Count("probe_max_size_frame_answered")
 	}
+	big := len(req.GetKey()) >= c09BigKeyMin
+	if big {
+		s.Count("probe_big_key_answered")
+	}
 	switch typ {
 	case pb.Message_PING, pb.Message_PUT_VALUE:
 		if n := len(resp.GetCloserPeers()) + len(resp.GetProviderPeers()); n > 0 {
@@ -456,6 +463,9 @@ func (w *c09World) checkResponse(st *c09Stream, r *c09Req, resp *pb.Message, bod
 	case pb.Message_GET_VALUE:
 		if resp.GetRecord() != nil {
 			s.Count("probe_value_served")
+			if big {
+				s.Count("probe_big_value_served")
+			}
 		} else if w.putOK[string(req.GetKey())] {
 			s.Count("probe_value_expired")
 		}
@@ -464,6 +474,20 @@ func (w *c09World) checkResponse(st *c09Stream, r *c09Req, resp *pb.Message, bod
 			w.putOK = map[string]bool{}
 		}
 		w.putOK[string(req.GetKey())] = true
+		if big {
+			s.Count("probe_big_value_stored")
+		}
+	}
+	if big && typ == pb.Message_GET_VALUE && bodyLen > network.MessageSizeMax {
+		// Not a demand (the property bounds FIND_NODE and GET_PROVIDERS responses):
+		// the key that comes back and the record are what the requesters made them.
+		// Reach evidence for the state in which a response has no room left for
+		// anything the node adds (c09_bigkey.go).
+		s.Count("probe_big_response_over_limit")
+		if resp.GetRecord() == nil {
+			// the key that came back alone does it
+			s.Count("probe_big_key_alone_over_limit")
+		}
 	}
 }
 
@@ -557,6 +581,9 @@ func (w *c09World) checkCloser(st *c09Stream, r *c09Req, resp *pb.Message, bodyL
 		same = true
 		cands = cands[:len(got)]
 		s.Count("probe_closer_cut_by_transport_limit")
+		if len(key) >= c09BigKeyMin {
+			s.Count("probe_big_key_closer_cut")
+		}
 		nConn := 0
 		for _, rec := range resp.GetCloserPeers() {
 			if rec.GetConnection() != 0 {
